@@ -60,6 +60,10 @@ def pth (c impl : List String) : Option Verdict := do
       let t ← P.tok
       if t == "F" then do let i ← P.nat; let b ← P.bool; pure (HOp.setFw i b)
       else if t == "X" then do let i ← P.nat; pure (HOp.failNext i)
+      -- the next Apply of the interface's wildcard plugin fails once; generated only right before a
+      -- generation on a transmitting path of that interface, where it has the effect of a failing
+      -- forwarding read: nothing is generated and the advertiser ends
+      else if t == "P" then do let i ← P.nat; pure (HOp.failNext i)
       else if t == "G" then do let i ← P.nat; let p ← P.nat; pure (HOp.gen i p)
       else failure)
     pure (a, b, ops)) c
